@@ -18,7 +18,7 @@ From Coq Require Import List Bool Arith ZArith.
 Import ListNotations.
 From Stab.model Require Import Base StatusM Readiness StageStat Engine.
 From Stab.gen Require Import Gen_Config.
-From Stab.proofs Require Import StatusP EngineP EngineLegal EngineSteps EngineEx EngineIds.
+From Stab.proofs Require Import StatusP EngineP EngineLegal EngineSteps EngineEx EngineIds EnginePush.
 
 Theorem C02_dup_noop : forall orc s id do_ack r,
   find_row s id = Some r -> (q_attempts r < queue_max_attempts)%Z -> mem_nat id (w_processed s) = true ->
@@ -50,6 +50,15 @@ Theorem C02_no_reexec : forall orc s a i t st tk,
   get_stage s i = Some st -> nth_error (s_tasks st) t = Some tk -> t_status tk <> RUNNING ->
   g_execs (step orc s a) = g_execs s \/ exists p, g_execs (step orc s a) = p :: g_execs s /\ p <> (i, t).
 Proof. exact recorded_result_not_reexecuted. Qed.
+
+(* whole runs, no premise on the state: for tasks that never suspend and never jump, every completed workflow / stage /
+   task status survives EVERY run (deliveries in any order, redeliveries, crash cuts, sweeps, cancels, signals,
+   unpauses) from any state without pending re-arm messages - in particular from the initial state. `_partial`:
+   suspending / jumping tasks and operator restarts are covered per step only (C02_completed_survives). *)
+Theorem C02_completed_survives_run_partial : forall orc acts s,
+  never_suspends orc -> never_jumps orc -> forallb plain acts = true -> no_rearm_msgs s ->
+  completed_kept s (run orc s acts).
+Proof. intros orc acts s. apply completed_survives_run_plain. Qed.
 
 (* once a message's handling has committed (its id carries a processed mark) it stays processed in EVERY continuation
    of the run, and any later delivery of that row - whatever happened in between - changes no stage, status, flag,
@@ -96,6 +105,7 @@ Print Assumptions C02_dup_noop.
 Print Assumptions C02_no_rearm_without_jump.
 Print Assumptions C02_completed_survives.
 Print Assumptions C02_no_reexec.
+Print Assumptions C02_completed_survives_run_partial.
 Print Assumptions C02_processed_forever.
 Print Assumptions C02_ids_invariant.
 Print Assumptions C02_fresh_message_not_deduplicated.
